@@ -337,16 +337,18 @@ def finish(ctx, family, monitor, by_sid, viols, events, coverage, assumptions, o
             continue
         ok = False
         for v in vs[:3]:
-            sc = by_sid.get(v.get('trace'))
+            tr = str(v.get('trace'))
+            sc = by_sid.get(tr) or by_sid.get(tr.split('/')[0])
             if sc is None:
                 continue
-            rv, _ = run_and_judge(ctx, family, monitor, [sc], opt=opt, shards=1, consts=consts)
+            fam, o = sc.get('_fam', family), sc.get('_opt', opt)
+            rv, _ = run_and_judge(ctx, fam, monitor, [sc], opt=o, shards=1, consts=consts)
             if any(signature(x) == sig for x in rv):
                 os.makedirs(rdir, exist_ok=True)
                 h = hashlib.sha1((sig + str(sc.get('sid'))).encode()).hexdigest()[:12]
                 rp = os.path.join(rdir, '%s.json' % h)
                 with open(rp, 'w') as f:
-                    json.dump({'property': ctx.prop, 'family': family, 'monitor': monitor, 'opt': opt, 'consts': consts,
+                    json.dump({'property': ctx.prop, 'family': fam, 'monitor': monitor, 'opt': o, 'consts': consts,
                                'scenario': sc, 'violation': v}, f, indent=1)
                 confirmed.append((v, rp, len(vs)))
                 ok = True
